@@ -84,8 +84,8 @@ SPEC = dict(
     extract=extract,
     rule=("a case = (size n of the source binary, filler kind, planted byte strings, optional white-space after the marker, "
           "project tree, number the entry returns); the binary is packed with the real CLIPacker.Pack and run with the real "
-          "RunPackedBinary; compared: offset handed to the zip reader, outcome (exit callback with the entry's result / fall "
-          "through / fail), files seen through the memory import locator byte-identical to the tree. Sweep: every n in "
+          "RunPackedBinary; compared: outcome (exit callback with the entry's result / fall "
+          "through / fail) and files seen through the memory import locator byte-identical to the tree. Sweep: every n in "
           "[0, 3*max(bufSize, b1+b2)+2|marker|+8] (thorough: 6*) (geometry regenerated from pack.go) x 3 fillers; every proper prefix of the "
           "marker and every one-byte-changed marker at every alignment around 6 block boundaries x gaps to the real marker "
           "(0 = immediately followed); marker inside the binary; white-space after the marker; unpacked binaries; large random "
@@ -107,13 +107,32 @@ SPEC = dict(
     post=lambda ctx, cases, gores, model: ctx.coverage.update(
         witnesses_not_counted_as_obligations=len([l for l in open(os.path.join(checklib.LEAN, "Ecal", "Props", "C20.lean"))
                                                   if l.startswith("example")]),
-        obligations_note=("obligations = theorems of Props/C20.lean: 9 facts regenerated from the source and checked by decide "
-                          "(geom_*, isSkip_table, main_runs_packed_first, locate_started_file, pack_truncates - syntactic facts tied to "
-                          "the code by the process / sequence cases) + 8 property statements over the model; negative witnesses, "
-                          "definitional facts (pack_overwrites) and non-vacuity instances are `example`s and not counted")),
+        obligations_note=("obligations = the theorems of Props/C20.lean. Recorded facts regenerated from the source and checked by decide: "
+                          "geom_marker_nonempty, geom_keep_covers_marker, geom_keep_lt_buf, zip_signature_not_skipped (semantic: evaluated), "
+                          "main_call_not_guarded, locate_not_by_argv0_alone (three-valued, only a REFUTED fact breaks them; they are not theorems "
+                          "about the code's behaviour - the process cases are the tie). Statements over the model: the scan theorems (scan_eq_spec, "
+                          "scan_finds_archive, archive_exact, scan_total, scan_first_occurrence, scan_skips_whitespace, read-schedule theorems) are "
+                          "inductions over all files; packed_runs_entry / packed_never_falls_through / plain_binary_falls_through are a CASE TABLE for "
+                          "the control flow after the scan whose hypotheses (zipOk, entryOk, result) ARE the clauses 'files recovered' and 'entry "
+                          "runs' - those clauses are tested, not proved. Witnesses / definitional facts / instances are `example`s, not counted.")),
     assumptions=[
-        "requires the repairs fixes/C20-locate-own-executable.patch (E1), C20-entry-name-collision.patch (E2), "
-        "C20-packfiles-propagates-errors.patch (E3) in the tree under test; without them the check reports VIOLATION (findings/C20-E*.json)",
+        "requires fixes/C20-source-is-target.patch and fixes/C20-memory-import-clean-path.patch in the tree under test (findings of review 2; "
+        "without them the check reports VIOLATION, findings/C20-source-is-target-*.json, C20-unclean-import-path-*.json); the earlier repairs "
+        "(a0bf548, 4d6bfdb, 4584a1a, cc5774c) are in /repo",
+        "`-source X -target X` (same file, also via hard link) is REFUSED by the pack tool with an error and X stays intact (spec decision with the fix)",
+        "Go's zip reader locates the central directory from the end record and accepts bytes in front of the archive (trusted): therefore the OFFSET "
+        "handed to it is not an observable (counted only), white-space after the marker and a source binary that already contains marker+archive "
+        "(repacking) still run the last packed project; hbin is necessary for the offset theorem, not for the property",
+        "write errors reported by zip.Writer.Close / dest.Close at the end of Pack are dropped by Pack (exit 0, broken executable) - by reading, not "
+        "injected; a FIFO inside the project makes `pack` block for ever - both outside what the cases exercise",
+        "45k of the cases run RunPackedBinary in-process with osArgs overridden, i.e. through the filepath.Abs(osArgs[0]) branch that production "
+        "never takes; the production branch (os.Executable) is run by the ~110 real-process cases only",
+        "interpreter sizes exercised: every size 0..3 buffer lengths, random up to ~180 kB, the real CLI (~9 MB), sparse zero files of 2^24, 2^25+1, "
+        "2^27-1 (thorough: up to 2^29); the theorems cover every size, the tie does not go beyond 512 MB",
+        "random project trees: <= 40 files, <= 310 kB per file, depth <= 5 (hidden / oddly named directories included); fixed tree 10 has files of "
+        "2^16±1, 2^20±1 and 3 MB; nothing larger is compared",
+        "the extractor recognises Read / carry-over copy / skip predicate but does NOT verify that the scan loop has no further exit condition "
+        "(review 2, S5): such drift is only caught by the size dimension of the generator",
         "a project with a root file named .ecalsrc-entry, or containing a symbolic link to a directory / a dangling link, is REFUSED by the pack "
         "tool with an error (spec decision: no executable is better than one that runs an impostor or silently lacks files); the property is "
         "about the projects the tool accepts",
@@ -136,9 +155,10 @@ META = dict(
     technique=("Lean 4 theorems over a byte-list model of Pack's layout and RunPackedBinary's block loop (geometry regenerated from "
                "pack.go by a go/ast extractor) + differential correspondence driving the real Pack and RunPackedBinary over an "
                "exhaustive size sweep"),
-    level_text=("Proof for the marker scan and the outcome after it (under named hypotheses for zip reader / parser); the clauses 'which file is "
-                "scanned', 'files recovered' and 'entry runs' are a small model + tests (start forms of the real process, 10 fixed and random "
-                "project trees through the tool's own command line). Proof: for every binary length and content (no marker occurrence starting inside the binary), every archive starting "
+    level_text=("Proof for the marker scan (clause 'locates the embedded archive ... for every binary of any size and content') and a case table for "
+                "the control flow after it; the clauses 'which file is scanned', 'recovers every packed file' and 'runs the entry file' are "
+                "hypotheses of that table and are TESTED (start forms and command lines of the real process, 12 fixed and random project trees "
+                "through the tool's own command line, sequences, sizes up to 2^27), not proved. Proof: for every binary length and content (no marker occurrence starting inside the binary), every archive starting "
                 "with a non-space byte and every read schedule, the overlapping-window scan returns |bin|+|marker| and the zip reader "
                 "gets exactly the archive bytes; on every file the scan equals strings.Index over the whole file, terminates, stays in "
                 "bounds and falls through when there is no marker; first occurrence wins otherwise. Negative witness for the scanner "
